@@ -55,6 +55,8 @@ PROBES = ["add_array", "iadd_array", "mul_array", "div_array", "sub_array", "neg
           "neg_factor", "oversub", "sub_ok", "neg_setter_tail", "oversub_tail",
           # array operands that leave no bin negative (only the switch can refuse them), in other spellings
           "sub_array_small", "isub_array_small", "sub_list_small", "add_list", "radd_array", "rsub_like",
+          # a histogram that carries negative contents (made while the switch was on) added while it is off
+          "add_negative_hist", "iadd_negative_hist",
           # refused with the switch on or off - they exercise the raising paths of the operators:
           "sub_incompatible", "sub_other_ndim", "add_incompatible", "isub_incompatible", "mul_hist", "div_hist"]
 ALWAYS_REFUSED = {"sub_incompatible", "sub_other_ndim", "add_incompatible", "isub_incompatible", "mul_hist", "div_hist"}
@@ -255,6 +257,18 @@ class Interp:
                 vals.reshape(-1)[-1] = float(np.asarray(h.frequencies).reshape(-1)[-1]) + 2.0
                 other.frequencies = vals
                 return h - other  # negative in the last bin only
+        elif kind in ("add_negative_hist", "iadd_negative_hist"):
+            from physt.config import config as _cfg
+
+            with _cfg.enable_free_arithmetics():
+                neg = h * (-3)  # legal here; the context ends before the addition below
+            if kind == "add_negative_hist":
+                fn = lambda: h + neg  # noqa: E731
+            else:
+                def fn():
+                    c = h.copy()
+                    c += neg
+                    return c
         elif kind == "neg_factor":
             fn = lambda: h * (-1)  # noqa: E731
         elif kind == "oversub":
